@@ -196,6 +196,7 @@ func (h *Handler) HandleMessage(msg stanza.Message, t xmlstream.TokenReadEncoder
 				return nil
 			}
 
+			verifYield("recv.lookup", id)
 			c <- struct{}{}
 			return nil
 		case "request":
@@ -274,6 +275,7 @@ func (h *Handler) SendMessageElement(ctx context.Context, s *xmpp.Session, paylo
 		return err
 	}
 
+	verifYield("send.wait", msg.ID)
 	select {
 	case <-c:
 		return nil
